@@ -1,0 +1,7 @@
+//go:build !verif
+
+package tcp
+
+func verifSeqNum(seqNum uint32) uint32 {
+	return seqNum
+}
